@@ -257,5 +257,113 @@ func c32Case(rt *rapid.T, rec *ev.Rec) {
 func TestC32(t *testing.T) {
 	rec := ev.New("C32", "rapid: signer key A, second key B, two session secrets (extra secrets of two real ECDH sessions or random 0..64 B); classes: genuine (65/64-byte signature, compressed/uncompressed key), signature over the other session's secret, signature by the other key, other key claimed, single-bit mutation of signature / public key, malformed lengths and prefixes, (r,N-s), zero r/s, swapped r/s. Non-trivial = a case that must be rejected; distinct by (class, key bytes, signature, secrets)")
 	defer rec.Flush(t)
-	ev.Check(t, 10000, 150000, func(rt *rapid.T) { c32Case(rt, rec) })
+	t.Run("handshake", func(t *testing.T) {
+		ev.Check(t, 10000, 150000, func(rt *rapid.T) { c32Case(rt, rec) })
+	})
+	t.Run("sessions", func(t *testing.T) {
+		ev.Check(t, 60, 1200, func(rt *rapid.T) { c32Sessions(rt, rec) })
+	})
+}
+
+// c32Sessions: the identity assigned to a peer is (and stays) the identity of the key that peer
+// proved, over a node's life time with many peers. One verifying node authenticates a drawn
+// sequence of up to 400 sessions of peers taken from a pool of up to 260 keys (returning peers
+// included), interleaved with identities that reach the node by other ways (source ids of
+// packets, addresses). After every session: a genuine proof that is accepted must be assigned
+// the address of exactly the proving key, an impostor (another key's signature under the claimed
+// key) must be rejected, and every identity handed out earlier must still be the address of the
+// key that proved it (the node keeps these objects as the identities of its connections).
+func c32Sessions(rt *rapid.T, rec *ev.Rec) {
+	log := hnQuietLogger()
+	wV, _ := wallet.NewFromPrivateKey(gen.KeyFromIndex(1))
+	aV := network.VerifNewAuthenticator(wV, log)
+	nKeys := rapid.SampledFrom([]int{1, 5, 40, 99, 100, 101, 102, 150, 201, 260}).Draw(rt, "nKeys")
+	base := rapid.IntRange(0, 1<<20).Draw(rt, "keyBase")
+	nSess := rapid.IntRange(1, 400).Draw(rt, "nSessions")
+	type held struct {
+		key int
+		id  interface{ Bytes() []byte }
+		at  int
+	}
+	var helds []held
+	addrOf := map[int][]byte{}
+	auths := map[int]*network.Authenticator{}
+	pubs := map[int][]byte{}
+	key := func(i int) (*network.Authenticator, []byte, []byte) {
+		if auths[i] == nil {
+			k := gen.KeyFromIndex(1000 + base + i)
+			w, _ := wallet.NewFromPrivateKey(k)
+			auths[i] = network.VerifNewAuthenticator(w, log)
+			pubs[i] = k.PublicKey().SerializeCompressed()
+			x, y, ok := c32ParsePub(k.PublicKey().SerializeUncompressed())
+			if !ok {
+				ev.Inconclusive("C32: harness cannot parse its own key")
+			}
+			d := sha3.Sum256(append(x.FillBytes(make([]byte, 32)), y.FillBytes(make([]byte, 32))...))
+			addrOf[i] = d[12:]
+		}
+		return auths[i], pubs[i], addrOf[i]
+	}
+	distinct := map[int]bool{}
+	returning, impostors, foreign := 0, 0, 0
+	var trail []string
+	for sn := 0; sn < nSess; sn++ {
+		var ki int
+		switch rapid.IntRange(0, 5).Draw(rt, "who") {
+		case 0: // one of the first peers comes back
+			ki = rapid.IntRange(0, min(nKeys-1, 3)).Draw(rt, "early")
+		case 1: // any peer of the pool
+			ki = rapid.IntRange(0, nKeys-1).Draw(rt, "any")
+		default: // the next peer not seen yet (wraps around)
+			ki = len(distinct) % nKeys
+		}
+		if distinct[ki] {
+			returning++
+		}
+		distinct[ki] = true
+		a, pub, want := key(ki)
+		secret := []byte(fmt.Sprintf("session-%d-%d", base, sn))
+		kind := rapid.IntRange(0, 9).Draw(rt, "kind")
+		switch {
+		case kind == 0 && nKeys > 1: // impostor: another peer's signature under this peer's key
+			oa, _, _ := key((ki + 1) % nKeys)
+			impostors++
+			trail = append(trail, fmt.Sprintf("imp%d", ki))
+			if id, err := aV.VerifySignature(pub, oa.Signature(secret), secret); err == nil {
+				rt.Fatalf("C32 violated: session %d: peer claiming key #%d was assigned identity %v with a signature made by key #%d", sn, ki, id, (ki+1)%nKeys)
+			}
+		case kind == 1: // identities arriving by other ways than a handshake
+			foreign++
+			trail = append(trail, "pkt")
+			junk := sha3.Sum256(secret)
+			_ = network.NewPeerID(junk[:20])
+		default:
+			trail = append(trail, fmt.Sprintf("k%d", ki))
+			id, err := aV.VerifySignature(pub, a.Signature(secret), secret)
+			if err != nil {
+				ev.Inconclusive("C32: a genuine handshake signature is rejected (%v), the check cannot observe acceptance", err)
+			}
+			if id == nil || !bytes.Equal(id.Bytes(), want) {
+				rt.Fatalf("C32 violated: session %d of %d (%d distinct peers so far): key #%d proved possession and was assigned identity %v, its identity is %x | sessions: %v", sn, nSess, len(distinct), ki, id, want, trail)
+			}
+			helds = append(helds, held{ki, id, sn})
+		}
+		for _, h := range helds {
+			if !bytes.Equal(h.id.Bytes(), addrOf[h.key]) {
+				rt.Fatalf("C32 violated: after session %d (%d distinct peers): the identity assigned in session %d to the peer that proved key #%d (%x) now reads %x | sessions: %v", sn, len(distinct), h.at, h.key, addrOf[h.key], h.id.Bytes(), trail)
+			}
+		}
+	}
+	labels := []string{"sessions"}
+	if len(distinct) > 100 {
+		labels = append(labels, "sessions:moreThan100Peers")
+	}
+	if returning > 0 {
+		labels = append(labels, "sessions:returningPeer")
+	}
+	if impostors > 0 {
+		labels = append(labels, "sessions:impostor")
+	}
+	rec.Case(fmt.Sprintf("sessions: pool of %d keys (base %d), %d sessions, %d distinct peers, %d returning, %d impostors, %d foreign ids", nKeys, base, nSess, len(distinct), returning, impostors, foreign),
+		len(distinct) > 100 && returning > 0, labels...)
 }
